@@ -269,7 +269,19 @@ func selectDeflate(extensions []websocketExtension, mode CompressionMode) (*comp
 
 func acceptDeflate(ext websocketExtension, mode CompressionMode) (*compressionOptions, bool) {
 	copts := mode.opts()
+	seen := make(map[string]struct{}, len(ext.params))
 	for _, p := range ext.params {
+		// An offer with a parameter that occurs more than once must be declined.
+		// See https://datatracker.ietf.org/doc/html/rfc7692#section-7
+		name := p
+		if i := strings.IndexByte(p, '='); i >= 0 {
+			name = p[:i]
+		}
+		if _, ok := seen[name]; ok {
+			return nil, false
+		}
+		seen[name] = struct{}{}
+
 		switch p {
 		case "client_no_context_takeover":
 			copts.clientNoContextTakeover = true
@@ -282,13 +294,23 @@ func acceptDeflate(ext websocketExtension, mode CompressionMode) (*compressionOp
 			continue
 		}
 
-		if strings.HasPrefix(p, "client_max_window_bits=") {
+		if strings.HasPrefix(p, "client_max_window_bits=") && validWindowBits(p[len("client_max_window_bits="):]) {
 			// We can't adjust the deflate window, but decoding with a larger window is acceptable.
 			continue
 		}
 		return nil, false
 	}
 	return copts, true
+}
+
+// validWindowBits reports whether s is a valid value of a max_window_bits
+// parameter, a decimal integer between 8 and 15 without leading zeros.
+func validWindowBits(s string) bool {
+	switch s {
+	case "8", "9", "10", "11", "12", "13", "14", "15":
+		return true
+	}
+	return false
 }
 
 func headerContainsTokenIgnoreCase(h http.Header, key, token string) bool {
